@@ -70,7 +70,8 @@ class TrafficFilter:
         if header_based_filter is not None:
             return header_based_filter
 
-        return self._check_if_host_or_ip_is_allowed(host_or_ip=host_or_ip)
+        # Host names are case insensitive, the lists are kept in lower case.
+        return self._check_if_host_or_ip_is_allowed(host_or_ip=host_or_ip.lower())
 
     @property
     def managed(self) -> bool:
@@ -149,7 +150,7 @@ class TrafficFilter:
         if value_to_parse is None or not value_to_parse:
             return None
 
-        return value_to_parse.split(_LIST_DELIMITER)
+        return value_to_parse.lower().split(_LIST_DELIMITER)
 
     def _check_for_header_based_filter(
         self, headers: Optional[Dict[str, str]]
